@@ -18,7 +18,7 @@ func init() {
 		ID:          "C03",
 		Level:       "other",
 		Run:         runC03,
-		Explanation: "Structural rules over the pipelined variants: R03.1 who-may-write architectural state (Context.Registers/Memory are stored to only by non-scoreboard Context methods and by the variants' line write-back routines; Context writers are called only from write units, branch resolution and Run); R03.2 every write-unit commit is behind the sequence filter `execution.SequenceID > limit` with limit != -1, and from the variant where register results are renamed the write-unit step of a flush cycle receives the limit; R03.3 the pipeline flush reaches the flush/clean of every bus and unit (and bumps the sequence epoch where one is used); R03.4 before the flush, Run drains execute units holding older work with the limit installed and the execute unit's pre-step drops exactly the younger ones; R03.5 branch resolution: taken -> rollback with the branch's own id, not taken -> commit; R03.6 decode stalls after an unconditional jump until the target is reported; R03.7 stores reach a cache only sequence-guarded or gated on unresolved conditional branches; R03.8 the branch/memory classification tables agree with the opcode implementations; R03.10 the flush path contains no explicit panic. Does not decide that sequence ids order instructions correctly across loop iterations and epochs (a value question).",
+		Explanation: "Structural rules over the pipelined variants: R03.1 who-may-write architectural state (Context.Registers/Memory are stored to only by non-scoreboard Context methods and by the variants' line write-back routines; Context writers are called only from write units, branch resolution and Run); R03.2 every write-unit commit is behind the sequence filter `execution.SequenceID > limit` with limit != -1, and from the variant where register results are renamed the write-unit step of a flush cycle receives the limit; R03.3 the pipeline flush reaches the flush/clean of every bus and unit (and bumps the sequence epoch where one is used); R03.4 before the flush, Run drains execute units holding older work with the limit installed and the execute unit's pre-step drops exactly the younger ones; R03.5 branch resolution: taken -> rollback with the branch's own id, not taken -> commit; R03.6 decode stalls after an unconditional jump until the target is reported; R03.7 stores reach a cache only sequence-guarded or gated on unresolved conditional branches; R03.8 the branch/memory classification tables agree with the opcode implementations; R03.10 the flush path contains no explicit panic; R03.11 every read of the memory image by a line fetch is bounded (a wrong-path load may fetch any address); R03.12 the branch unit never misses a flush (assert -> jump/conditionalBranch sets the flush flag whenever the resolved pc differs from the fetched one); R03.13 every dispatch path of the control unit maintains the flags that hold ret and stores behind an unresolved conditional branch; R03.14 the squash restores register state: Context.Rollback/RATRollback, the transactional writes and the tag-bounded rename-table lookups equal the reference model (spec/risc_state.go.txt). Does not decide that sequence ids order instructions correctly across loop iterations and epochs (a value question).",
 		Assumptions: []string{"sequence ids increase in program order within an epoch (not decided)"},
 		Trusted:     []string{"go/types", "role resolution (evidence.anchors)", "E-TERM opcode terms for the derived classification"},
 	})
@@ -983,6 +983,19 @@ func runC03(r *Run) {
 	ruleMemoryImageBounds(r, "R03.11")
 	r.floor("R03.12", 9)
 	ruleNeverMissesFlush(r, "R03.12")
+	// the flags that hold ret and stores behind an unresolved conditional branch
+	// are maintained on every dispatch path
+	r.floor("R03.13", 7)
+	ruleDispatchBookkeeping(r, "R03.13")
+	// the squash restores the register state: rollback and the tag-bounded
+	// rename-table lookups equal the reference model
+	r.floor("R03.14", 6)
+	conform(r, "R03.14", "risc", "Context", "Rollback", "risc_state", nil)
+	conform(r, "R03.14", "risc", "Context", "RATRollback", "risc_state", nil)
+	conform(r, "R03.14", "risc", "Context", "TransactionWriteRegister", "risc_state", nil)
+	conform(r, "R03.14", "risc", "Context", "TransactionRATWrite", "risc_state", nil)
+	conform(r, "R03.14", "proc/comp", "RAT", "Find", "risc_state", nil)
+	conform(r, "R03.14", "proc/comp", "RAT", "FindValues", "risc_state", nil)
 }
 
 // ruleMemoryImageBounds: a line fetch may be issued for any address (a
